@@ -1153,7 +1153,7 @@ func (w *dtWalker) evalCond(st *dtState, cond ssa.Value) (string, string, string
 					known = "nil"
 				case strings.HasPrefix(key, "{"), strings.HasPrefix(key, "make["), strings.HasPrefix(key, "func:"), strings.HasPrefix(key, "local:complit"), strings.HasPrefix(key, "&local:"):
 					known = "non-nil"
-				case strings.HasPrefix(key, "fmt.Errorf("), strings.HasPrefix(key, "errors.New("):
+				case strings.HasPrefix(key, "fmt.Errorf("), strings.HasPrefix(key, "errors.New("), strings.HasPrefix(key, "errwrap:"):
 					known = "non-nil" // the error constructors never return nil
 				}
 				if known != "" {
